@@ -177,6 +177,10 @@ def malformed():
         yield s, "bad:oct_digit", "INVALID_OCT_INT"
     for s in ["0b2", "0b102", "0B1191", "0b012", "0b13u", "0b9"]:
         yield s, "bad:bin_digit", "INVALID_BIN_INT"
+    # ll / wb written in mixed case are not suffixes (C11 6.4.4.1: ll or LL; C23: wb or WB)
+    for body in ["1", "10", "0x1f", "07", "0b1", "9"]:
+        for suf in ["lL", "Ll", "ulL", "uLl", "lLu", "LlU", "wB", "Wb", "uwB", "Wbu"]:
+            yield body + suf, "bad:int_suffix_case_mix", "INVALID_SUFFIX"
     for s in ["12ab", "1q", "7lul", "1ulll", "5uu", "0x1fg", "0xg", "0XABz1", "12_", "9lL", "3Ll", "10ulu",
               "0b1x", "017q"]:
         yield s, "bad:int_suffix", "INVALID_SUFFIX"
